@@ -22,6 +22,8 @@ TECHNIQUE += '; recursive-grammar cases for the nullable computation (terminatio
 LEVEL_TEXT += ' Added clauses: is_nullable terminates on recursive rules; a left call through `>rule` is seen; cycles are detected in all rules, not only those reachable from the first rule.'
 TECHNIQUE += '; pegen._is_nullable_safe against the same nullable table incl. nested sequences/choices; an exception raised by the interpreted marking is a finding'
 LEVEL_TEXT += " Added clause: the analysis' own nullable helper agrees with the table on nested sequences and choices."
+TECHNIQUE += '; bare-option choices (the optimized grammar) in the nullable table'
+LEVEL_TEXT += ' Added clause: a choice whose options are bare expressions is nullable iff an option is.'
 LEVEL_NOTE = ('CPython: typing.Protocol.__init_subclass__ clears _is_protocol only if every __init_subclass__ before it in the MRO '
               'chains to super(). The nullable table (DESIGN appendix C) is the oracle.')
 EXPLANATION = ('Static analysis of /repo sources, TatSu not imported. Model methods are interpreted by the whitelisted evaluator '
